@@ -225,6 +225,12 @@ def apply_fault(v, d, hist, f, singletons):
         return blk
     a = acts[i - 1]
     blk = nav(d, enclosing[i])
+    if kind == "pair-elem-wrong-type":
+        key = a["a"]
+        pairs = [list(p) for p in blk[key]]
+        pairs[-1][-1] = "five"
+        blk[key] = pairs
+        return blk
     key = a["key"]
     t = blk["__type__"]
     if kind == "enum-outside":
